@@ -291,4 +291,138 @@ theorem globMatch_iff (ts : List Tok) (s : Str) : globMatch ts s = true ↔ Matc
       | starEat h' => exact (hns rfl).elim
       | one hm h' => exact ⟨hm, ih.mpr h'⟩
 
+/-! ### glob: textbook characterisations, `translate` outside brackets, simple classes -/
+
+
+/-- `*` takes any (possibly empty) prefix of the remaining text -/
+theorem matches_star_iff (ts : List Tok) (s : Str) :
+    Matches (.star :: ts) s ↔ ∃ s1 s2, s = s1 ++ s2 ∧ Matches ts s2 := by
+  constructor
+  · induction s with
+    | nil =>
+      intro hm
+      cases hm with
+      | starEmpty h' => exact ⟨[], [], rfl, h'⟩
+    | cons c s ih =>
+      intro hm
+      cases hm with
+      | starEmpty h' => exact ⟨[], c :: s, rfl, h'⟩
+      | starEat h' =>
+        obtain ⟨s1, s2, rfl, h2⟩ := ih h'
+        exact ⟨c :: s1, s2, rfl, h2⟩
+      | one hc _ => simp [star_matches_false] at hc
+  · rintro ⟨s1, s2, rfl, h2⟩
+    induction s1 with
+    | nil => exact .starEmpty h2
+    | cons c s1 ih => exact .starEat ih
+
+/-- every other token takes exactly one character it matches -/
+theorem matches_one_iff (t : Tok) (ht : t ≠ .star) (ts : List Tok) (s : Str) :
+    Matches (t :: ts) s ↔ ∃ c s', s = c :: s' ∧ t.matches c = true ∧ Matches ts s' := by
+  constructor
+  · intro hm
+    cases hm with
+    | starEmpty _ => exact absurd rfl ht
+    | starEat _ => exact absurd rfl ht
+    | one hc h' => exact ⟨_, _, rfl, hc, h'⟩
+  · rintro ⟨c, s', rfl, hc, h'⟩
+    exact .one hc h'
+
+
+
+/-- the token a pattern character stands for outside brackets -/
+def tokOfChar (c : Nat) : Tok := if c == 42 then .star else if c == 63 then .any else .lit c
+
+/-- a bracket-free pattern read character by character (no `*` compression) -/
+def plainToks (pat : Str) : List Tok := pat.map tokOfChar
+
+theorem matches_cons_congr (t : Tok) (A B : List Tok) (h : ∀ s, Matches A s ↔ Matches B s) :
+    ∀ s, Matches (t :: A) s ↔ Matches (t :: B) s := by
+  have key : ∀ (A B : List Tok), (∀ s, Matches A s → Matches B s) → ∀ s, Matches (t :: A) s → Matches (t :: B) s := by
+    intro A B hAB s
+    induction s with
+    | nil =>
+      intro hm
+      cases hm with
+      | starEmpty h' => exact .starEmpty (hAB _ h')
+    | cons c s ih =>
+      intro hm
+      cases hm with
+      | starEmpty h' => exact .starEmpty (hAB _ h')
+      | starEat h' => exact .starEat (ih h')
+      | one hc h' => exact .one hc (hAB _ h')
+  intro s
+  exact ⟨key A B (fun s => (h s).mp) s, key B A (fun s => (h s).mpr) s⟩
+
+theorem matches_star_star (ts : List Tok) : ∀ s, Matches (.star :: .star :: ts) s ↔ Matches (.star :: ts) s := by
+  intro s
+  constructor
+  · induction s with
+    | nil =>
+      intro hm
+      cases hm with
+      | starEmpty h' => exact h'
+    | cons c s ih =>
+      intro hm
+      cases hm with
+      | starEmpty h' => exact h'
+      | starEat h' => exact .starEat (ih h')
+      | one hc _ => simp [star_matches_false] at hc
+  · exact .starEmpty
+
+/-- Outside brackets `fnmatch.translate` is the character-by-character reading: compressing runs of `*` does not
+change what is matched. -/
+theorem translate_plain (pat : Str) (h : 91 ∉ pat) (fuel : Nat) (hf : pat.length < fuel) :
+    ∀ name, Matches (translate fuel pat) name ↔ Matches (plainToks pat) name := by
+  induction pat generalizing fuel with
+  | nil =>
+    intro name
+    cases fuel with
+    | zero => omega
+    | succ f => simp [translate, plainToks]
+  | cons c rest ih =>
+    cases fuel with
+    | zero => omega
+    | succ f =>
+      simp only [List.mem_cons, not_or] at h
+      have ih' := ih h.2 f (by simp at hf; omega)
+      have hc91 : (c == 91) = false := by simpa using Ne.symm h.1
+      simp only [translate, plainToks, List.map_cons, tokOfChar]
+      by_cases h42 : (c == 42) = true
+      · simp only [h42, if_true]
+        intro name
+        have hcong := matches_cons_congr .star _ _ ih' name
+        rw [← show plainToks rest = rest.map tokOfChar from rfl] at *
+        rw [← hcong]
+        split
+        · rename_i ts heq
+          rw [heq]
+          exact (matches_star_star ts name).symm
+        · exact Iff.rfl
+      · have h42' : (c == 42) = false := by simpa using h42
+        by_cases h63 : (c == 63) = true
+        · simp only [h42', h63, if_true, Bool.false_eq_true, if_false]
+          exact matches_cons_congr .any _ _ ih'
+        · have h63' : (c == 63) = false := by simpa using h63
+          simp only [h42', h63', hc91, Bool.false_eq_true, if_false]
+          exact matches_cons_congr (.lit c) _ _ ih'
+
+
+
+/-- `[seq]` without `-`: the listed characters -/
+theorem classOf_plain (stuff : Str) (h45 : 45 ∉ stuff) (h33 : stuff.head? ≠ some 33) :
+    classOf stuff = .cls false stuff [] := by
+  simp [classOf, h45, chunkRanges, h33]
+
+/-- `[!seq]` without `-`: every character except the listed ones -/
+theorem classOf_negated (rest : Str) (h45 : 45 ∉ rest) :
+    classOf (33 :: rest) = .cls true rest [] := by
+  simp [classOf, h45, chunkRanges]
+
+theorem cls_matches (neg : Bool) (singles : List Nat) (ranges : List (Nat × Nat)) (x : Nat) :
+    (Tok.cls neg singles ranges).matches x = true ↔
+      ((x ∈ singles ∨ ∃ r ∈ ranges, r.1 ≤ x ∧ x ≤ r.2) ↔ neg = false) := by
+  cases neg <;> simp [Tok.matches]
+
+
 end XknxVerif.AddressFilter
